@@ -36,8 +36,8 @@ BUDGET_S = {"quick": 70, "thorough": 800}
 
 def plan(tier):
     if tier == "quick":
-        return [{"n": 220, "i": i, "strict": i % 2 == 0} for i in range(16)]
-    return [{"n": 6000, "i": i, "strict": i % 2 == 0} for i in range(16)]
+        return [{"part": "xsession", "n": 60, "i": 0}] + [{"n": 220, "i": i, "strict": i % 2 == 0} for i in range(15)]
+    return [{"part": "xsession", "n": 1500, "i": i} for i in range(2)] + [{"n": 6000, "i": i, "strict": i % 2 == 0} for i in range(16)]
 
 
 burst = st.tuples(st.sampled_from(["c", "s"]),
@@ -241,7 +241,69 @@ def snap_no_dropped(conn):
     return s, dropped
 
 
+xsession_cases = st.fixed_dictionaries({
+    "seed": st.integers(0, 2 ** 20),
+    "flavour": st.sampled_from(["udp", "twisted"]),
+    "msgs": st.lists(st.tuples(st.sampled_from([1, 8, 40, 300, 1500, 3000]), st.sampled_from(scen.RETRIES)).map(list), min_size=1, max_size=6),
+    "hello_first": st.booleans(),       # the recorded SERVER_HELLO of session 1 overtakes the genuine one of session 2
+    "gap": st.sampled_from([0.2, 1.0, 6.0]),
+})
+
+
+def xsession_body(ctx, c):
+    """the same UdpClient object connects, receives application messages, disconnects and connects again; an attacker who
+    recorded what the server sent in session 1 (no key, nothing modified) replays it into session 2.  Nothing of session 1
+    may be handed to the application a second time"""
+    with W.World(seed=c["seed"], flavour=c["flavour"]) as w:
+        ch = w.connect_client()
+        uid = 0
+        for n, retry in c["msgs"]:
+            uid += 1
+            scen.do_send(w, ch, "s", n, retry, uid, callback=False)
+            w.step(0.017)
+        w.run(1.5, 0.017)
+        recorded = [em.data for em in w.net.log if em.dst == ch.laddr]
+        first = {}
+        for t, seq, msg in ch.received:
+            first[msg] = first.get(msg, 0) + 1
+        if not first:
+            return False
+        W.client_disconnect_and_wait(w, ch)
+        w.run(c["gap"], 0.05)
+        n_before = len(ch.received)
+        ch.alive = True
+        if c["hello_first"]:
+            for k, d in enumerate(recorded[:1]):
+                w.net.push(w.clock.t + 0.0005, ch.laddr, w.server_addr, d)
+        ch.connect()
+        w.step(0.017)
+        for k, d in enumerate(recorded):
+            w.net.push(w.clock.t + 0.002 + 0.0005 * k, ch.laddr, w.server_addr, d)
+        w.run(1.5, 0.017)
+        again = [msg for t, seq, msg in ch.received[n_before:] if msg in first]
+        if again:
+            ctx.violation("replayed-session-delivered-again", "%d application message(s) of the first session were handed to the application again "
+                          "after connect() was called a second time on the same UdpClient and the recorded server datagrams were replayed (%d datagrams, "
+                          "recorded hello %s the genuine one)" % (len(again), len(recorded), "before" if c["hello_first"] else "after"))
+        return True
+
+
+def run_xsession(spec, ctx):
+    @ctx.given(spec["n"], xsession_cases, salt="xs%s" % spec["i"])
+    def test(c):
+        if ctx.out_of_time():
+            return
+        ctx.case({"part": "xsession", "c": c})
+        if xsession_body(ctx, c):
+            ctx.label("xsession-replay-into-second-session")
+            ctx.nt(("xsession", c["seed"], c["hello_first"], len(c["msgs"])))
+    test()
+
+
 def run_shard(spec, ctx):
+    if spec.get("part") == "xsession":
+        return run_xsession(spec, ctx)
+
     @ctx.given(spec["n"], histories(spec["strict"]), salt=spec["i"])
     def test(c):
         if ctx.out_of_time():
@@ -261,4 +323,7 @@ def run_shard(spec, ctx):
 
 def replay_case(case, ctx):
     ctx.case(case)
+    if case.get("part") == "xsession":
+        xsession_body(ctx, case["c"])
+        return
     body(ctx, case["c"])
